@@ -241,7 +241,16 @@ class C06(Prop):
                 return ["value: geometric_mean = %r, exp(mean ln x) = %r" % (g, want)]
             return []
         if not finite(g):
-            return [] if abs(exact) > Fraction(2) ** (120 if et == "f32" else 1000) else ["value: %s returned a non-finite value" % r]
+            # a partial sum may leave the format as soon as the sum of the absolute values of the terms being added does
+            # (the property's bound is relative to exactly that sum): only then is a non-finite result acceptable
+            big = Fraction(2) ** (120 if et == "f32" else 1000)
+            if r in ("weighted_sum", "weighted_mean") and w is not None:
+                raw = sum(abs(a * Fraction(b)) for a, b in zip(X, w))
+            elif r == "harmonic_mean":
+                raw = abs(exact)
+            else:
+                raw = sum(abs(v) for v in X)
+            return [] if (abs(exact) > big or raw > big) else ["value: %s returned a non-finite value" % r]
         tiny = Fraction(1, 2 ** (140 if et == "f32" else 1060))
         bound = (2 * n + 30) * fp.u * mag * 2 + tiny * (n + 2)
         if abs(Fraction(g) - exact) > bound:
